@@ -55,21 +55,32 @@ pub fn step(t: &[&str]) -> Option<String> {
                 let d = super::pat(len, seed.parse::<u64>().ok()?.wrapping_add(i as u64));
                 buf[inoff + i * len..inoff + (i + 1) * len].copy_from_slice(&d);
             }
-            let mut out = vec![0xAAu8; outoff + n * 32 + 32];
             let incr = if *incr == "1" { IncrementCounter::Yes } else { IncrementCounter::No };
             let (ctr, fl, fs, fe) = (ctr.parse().ok()?, fl.parse().ok()?, fs.parse().ok()?, fe.parse().ok()?);
-            if blocks == 1 {
-                let ins: Vec<&[u8; 64]> = (0..n).map(|i| <&[u8; 64]>::try_from(&buf[inoff + i * 64..inoff + (i + 1) * 64]).unwrap()).collect();
-                p.hash_many(&ins, &keyw, ctr, incr, fl, fs, fe, &mut out[outoff..outoff + n * 32]);
-            } else if blocks == 16 {
-                let ins: Vec<&[u8; 1024]> = (0..n).map(|i| <&[u8; 1024]>::try_from(&buf[inoff + i * 1024..inoff + (i + 1) * 1024]).unwrap()).collect();
-                p.hash_many(&ins, &keyw, ctr, incr, fl, fs, fe, &mut out[outoff..outoff + n * 32]);
-            } else {
-                return None;
+            // twice: with an output slice of exactly 32 * n bytes, and - as the library's own callers do - with a longer slice
+            // (160 bytes of slack) of which only the first 32 * n bytes may be written
+            let mut outs: Vec<Vec<u8>> = Vec::new();
+            let mut intact = true;
+            for slack in [0usize, 160] {
+                let mut out = vec![0xAAu8; outoff + n * 32 + slack + 32];
+                {
+                    let dst = &mut out[outoff..outoff + n * 32 + slack];
+                    if blocks == 1 {
+                        let ins: Vec<&[u8; 64]> = (0..n).map(|i| <&[u8; 64]>::try_from(&buf[inoff + i * 64..inoff + (i + 1) * 64]).unwrap()).collect();
+                        p.hash_many(&ins, &keyw, ctr, incr, fl, fs, fe, dst);
+                    } else if blocks == 16 {
+                        let ins: Vec<&[u8; 1024]> = (0..n).map(|i| <&[u8; 1024]>::try_from(&buf[inoff + i * 1024..inoff + (i + 1) * 1024]).unwrap()).collect();
+                        p.hash_many(&ins, &keyw, ctr, incr, fl, fs, fe, dst);
+                    } else {
+                        return None;
+                    }
+                }
+                // everything around the 32 * n output bytes must be intact
+                intact &= out[..outoff].iter().all(|b| *b == 0xAA) && out[outoff + n * 32..].iter().all(|b| *b == 0xAA);
+                outs.push(out[outoff..outoff + n * 32].to_vec());
             }
-            // canaries around the output must be intact
-            let intact = out[..outoff].iter().all(|b| *b == 0xAA) && out[outoff + n * 32..].iter().all(|b| *b == 0xAA);
-            Some(format!("{}{}", super::hex(&out[outoff..outoff + n * 32]), if intact { "" } else { " CANARY" }))
+            let same = outs[0] == outs[1];
+            Some(format!("{}{}{}", super::hex(&outs[0]), if intact { "" } else { " CANARY" }, if same { "" } else { " MISMATCH" }))
         }
         ["xofmany", p, cv, block, bl, ctr, fl, n] => {
             let Some(p) = plat(p) else { return Some("unsupported".into()) };
